@@ -56,8 +56,21 @@ def gen_direct(rng):
     if rng.random() < 0.12:
         pts = {Fraction(int(v)) for v in pts}
     m = rng.choice(METHODS) if rng.random() < 0.92 else rng.choice(["quadratic", "nearest", "Linear", ""])
-    return {"kind": "direct", "x": [str(v) for v in x], "y": [str(v) for v in y], "new": [str(v) for v in sorted(pts)],
-            "method": m, "affine": affine, "container": rng.choice(["array", "array", "array", "labels"])}
+    c = {"kind": "direct", "x": [str(v) for v in x], "y": [str(v) for v in y], "new": [str(v) for v in sorted(pts)],
+         "method": m, "affine": affine, "container": rng.choice(["array", "array", "array", "labels"])}
+    if m in DEFAULT_KW and rng.random() < 0.3:
+        # pass-through keywords of the NumPy / SciPy routine, spelled out with their documented default values
+        # (a wrapper that forwards its own optional arguments): the result must be what it is without them
+        c["kw"] = rng.randrange(len(DEFAULT_KW[m]))
+    return c
+
+
+DEFAULT_KW = {
+    "linear": [{"left": None}, {"right": None}, {"period": None}, {"left": None, "right": None, "period": None}],
+    "constant": [{"left": None}],
+    "cubic": [{"bc_type": "not-a-knot"}, {"extrapolate": None}, {"axis": 0}],
+    "spline": [{"s": None}, {"k": 3}, {"w": None}, {"per": 0}, {"t": None, "task": 0}, {"xb": None, "xe": None}, {"s": None, "k": 3}],
+}
 
 
 def gen_counts(rng):
@@ -163,13 +176,14 @@ def run_impl(c):
                 na = S.arr([int(v) for v in new], dtype=c["xdtype"])
             if c.get("container") == "labels":
                 ya = S.LabelSeries(ya)                 # a column of a sorted data frame
-            r = interpolate(xa, ya, na, method=c["method"])
+            kw = DEFAULT_KW[c["method"]][c["kw"]] if "kw" in c else {}
+            r = interpolate(xa, ya, na, method=c["method"], **kw)
             if r is None:
                 return {"none": True}
             out = {"ok": [float(v) for v in r]}
             with warnings.catch_warnings():
                 warnings.simplefilter("ignore")
-                out["knots"] = [float(v) for v in interpolate(xa, ya, np.array(floats(x)), method=c["method"])]
+                out["knots"] = [float(v) for v in interpolate(xa, ya, np.array(floats(x)), method=c["method"], **kw)]
             return out
         except Exception as e:  # noqa
             return {"err": err_kind(e)}
@@ -276,7 +290,8 @@ def oracle(c, io):
 
 def tags(c, io, mo):
     if c["kind"] == "direct":
-        return [f"method={c['method']}", "affine" if c["affine"] else "generic"] + ([f"error={io['err']}"] if "err" in io else [])
+        return ([f"method={c['method']}", "affine" if c["affine"] else "generic"] + ([f"error={io['err']}"] if "err" in io else [])
+                + (["default-kwargs"] if "kw" in c else []))
     if not c["ops"]:
         return ["weaver", "skipped"]
     op = c["ops"][0]
